@@ -169,6 +169,45 @@ func judgeBatch(cs *BatchCase, o *BatchObs) []scen.Finding {
 			}
 		}
 	}
+	if !cancelled && cs.Stop && !cs.ErrResult {
+		// stop mode: every item that was started still gets its exact retry budget and fallback treatment (C02),
+		// and the slot of a fully processed item is that item's own outcome, not something written over it (C06)
+		for i := 0; i < n && i < len(o.Attempts); i++ {
+			if o.Attempts[i] == 0 {
+				continue
+			}
+			if o.Attempts[i] != wantAtt[i] {
+				add("C02", "batch-attempts-stop-mode:"+cc, "stop mode: item %d was started and got %d exec attempts, want exactly min(k=%d, N=%d) — another item's failure must not cut or extend a started item's budget", i, o.Attempts[i], cs.Items[i].K, cs.Budget)
+				continue
+			}
+			wantFB := 0
+			if failed[i] && cs.FB {
+				wantFB = 1
+			}
+			if o.FBCalls[i] != wantFB {
+				add("C02", "batch-fallback-count-stop-mode:"+cs.Build, "stop mode: item %d: fallback invoked %d times, want %d (all %d attempts failed: %v)", i, o.FBCalls[i], wantFB, cs.Budget, failed[i])
+				continue
+			}
+			if i >= len(o.Slots) {
+				continue
+			}
+			s := o.Slots[i]
+			ok := true
+			switch {
+			case !failed[i]:
+				ok = !s.IsError && s.ValOf == i && !s.ValFB
+			case cs.FB && !cs.Items[i].FBE:
+				ok = !s.IsError && s.ValOf == i && s.ValFB
+			case cs.FB:
+				ok = s.IsError && s.ErrOf == fmt.Sprintf("%d.fb", i)
+			default:
+				ok = s.IsError && s.ErrOf == fmt.Sprintf("%d.%d", i, cs.Budget)
+			}
+			if !ok && !(s.ValOf >= 0 && s.ValOf != i) {
+				add("C06", "slot-not-own-outcome:stop:"+cc, "stop mode: item %d was processed completely (%d attempts, first success at %d), but result %d is %+v — not the outcome of processing that item", i, o.Attempts[i], cs.Items[i].K, i, s)
+			}
+		}
+	}
 	// ---------------------------------------------------------------- C08: the limit
 	if !cs.Lean {
 		lim := cs.C
